@@ -17,6 +17,24 @@ ORDER = [
 ]
 
 
+# the proof modules the obligations need (built by ctx.prove with make once the files are in coq/_CoqProject)
+PROOF_VO = ["Parse/LexProofs.vo", "Parse/ParseSound.vo", "Parse/ParseComplete.vo", "Parse/NumericProofs.vo",
+            "Parse/StateProofs.vo", "Parse/PrintProofs.vo", "Parse/PrintWf.vo", "Parse/PrintParse2.vo"]
+
+
+def in_project():
+    try:
+        return "Parse/ParseModel.v" in open(os.path.join(vlib.COQ, "_CoqProject")).read()
+    except OSError:
+        return False
+
+
+def proof_modules():
+    """PROOF_MODULES for ctx.prove: the framework's make builds them when the Parse files are listed in
+    coq/_CoqProject; until then they are compiled directly by build_coq (called from prepare)"""
+    return list(PROOF_VO) if in_project() else []
+
+
 def run_translator(ctx):
     rc, out = vlib.sh(["python3", TRANSLATOR])
     if rc != 0:
@@ -62,7 +80,8 @@ def prepare(ctx):
     t = [time.time()]
     run_translator(ctx)
     t.append(time.time())
-    build_coq(ctx)
+    if not in_project():
+        build_coq(ctx)
     t.append(time.time())
     drv = ctx.build_driver("parse_driver")
     t.append(time.time())
